@@ -5,7 +5,15 @@
 set -e
 cd "$(dirname "$0")"
 PY=/root/.pyenv/versions/3.12.1/bin/python3.12
-if [ -x .venv/bin/python ] && .venv/bin/python -c "import z3, jsonschema" 2>/dev/null; then
+ready() { [ -x .venv/bin/python ] && .venv/bin/python -c "import z3, jsonschema" 2>/dev/null; }
+if ready; then
+    exit 0
+fi
+# several checks may be started at once on a fresh restore: only one of them builds the environment
+if command -v flock >/dev/null 2>&1 && [ -z "$PYVC_SETUP_LOCKED" ]; then
+    PYVC_SETUP_LOCKED=1 exec flock .setup.lock "$0" "$@"
+fi
+if ready; then
     exit 0
 fi
 rm -rf .venv
